@@ -1,6 +1,7 @@
 import CfrVerif.Proofs.RealInst
 import CfrVerif.Proofs.GameWF
 import CfrVerif.Proofs.Frontier
+import CfrVerif.Proofs.WellFormed
 /-!
 # C05 — every solve returns a well-formed strategy profile and never panics
 
@@ -33,14 +34,25 @@ def RegretParams.OK (p : RegretParams ℝ) : Prop := 0 ≤ p.strat
 theorem params_new_iff (pos neg noPos : Ext ℝ) (strat : ℝ) :
     (RegretParams.new? pos neg strat noPos = some ⟨pos, neg, strat, noPos⟩ ↔ 0 ≤ strat) ∧
     (RegretParams.new? pos neg strat noPos = none ↔ strat < 0) := by
-  sorry
+  rcases lt_trichotomy 0 strat with h | h | h
+  · have h1 := h.le
+    have h2 := not_lt.mpr h.le
+    cases pos <;> cases neg <;> cases noPos <;> simp [RegretParams.new?, h, h1, h2]
+  · subst h
+    cases pos <;> cases neg <;> cases noPos <;> simp [RegretParams.new?]
+  · have h1 := not_lt.mpr h.le
+    have h2 := not_le.mpr h
+    have h3 := h.ne
+    cases pos <;> cases neg <;> cases noPos <;> simp [RegretParams.new?, h, h1, h2, h3]
 
 /-- the five presets and the default are accepted tuples -/
 theorem presets_ok :
     (RegretParams.vanilla : RegretParams ℝ).OK ∧ (RegretParams.lcfr : RegretParams ℝ).OK ∧
     (RegretParams.cfrPlus : RegretParams ℝ).OK ∧ (RegretParams.dcfr : RegretParams ℝ).OK ∧
     (RegretParams.dcfrPrune : RegretParams ℝ).OK ∧ (RegretParams.default : RegretParams ℝ).OK := by
-  sorry
+  simp only [RegretParams.OK, RegretParams.vanilla, RegretParams.lcfr, RegretParams.cfrPlus,
+    RegretParams.dcfr, RegretParams.dcfrPrune, RegretParams.default, two]
+  norm_num
 
 /-- a per-player bound after `iters` iterations: `+∞` exactly when no iteration ran, otherwise a
 non-negative number -/
@@ -61,20 +73,42 @@ structure SolveOut.WellFormed (g : Game ℝ) (T : Nat) (o : SolveOut ℝ) : Prop
 
 /-! ## single-threaded solvers -/
 
+theorem BoundOK.fin (x : ℝ) (k : ℕ) (hx : 0 ≤ x) (hk : 0 < k) : BoundOK (.fin x) k := ⟨hx, hk⟩
+
+/-- a solve from the initial state with a step that preserves the state invariant and reports
+non-negative bounds returns a well-formed result -/
+theorem wellFormed_of_loop (g : Game ℝ) (T : ℕ) (step : IterFn ℝ) (thr : Option (Ext ℝ))
+    (hstep : ∀ it s log, StOK g s →
+      StOK g (step it s log).1 ∧ 0 ≤ (step it s log).2.1 ∧ 0 ≤ (step it s log).2.2.1)
+    (h0 : StOK g (SolveSt.init g)) :
+    (solveLoop step thr T 1 (SolveSt.init g) .posInf .posInf []).WellFormed g T := by
+  obtain ⟨⟨s', hs', e1, e2⟩, b1, b2, -, hle, hran⟩ :=
+    solveLoop_inv step thr (StOK g) BoundOK BoundOK.fin hstep T 1 (SolveSt.init g) .posInf .posInf []
+      le_rfl h0 rfl rfl
+  refine ⟨?_, ?_, b1, b2, by simpa using hle, by simpa using hran⟩
+  · rw [e1]; exact stOK_avg g s' hs' true
+  · rw [e2]; exact stOK_avg g s' hs' false
+
 theorem vanilla_single_wellformed (g : Game ℝ) (hg : GameWF g) (sampled : Bool)
     (p : RegretParams ℝ) (hp : p.OK) (draw : DrawFn ℝ) (T : Nat) (thr : Option (Ext ℝ)) :
     (solveVanillaSingle g sampled p draw T thr).WellFormed g T := by
-  sorry
+  unfold solveVanillaSingle solveWith
+  exact wellFormed_of_loop g T _ thr (fun it s log hs => vanillaIter_ok g sampled p hp draw it s log hs)
+    (stOK_init g hg)
 
 theorem external_single_wellformed (g : Game ℝ) (hg : GameWF g)
     (p : RegretParams ℝ) (hp : p.OK) (draw : DrawFn ℝ) (T : Nat) (thr : Option (Ext ℝ)) :
     (solveExternalSingle g p draw T thr).WellFormed g T := by
-  sorry
+  unfold solveExternalSingle solveWith
+  exact wellFormed_of_loop g T _ thr (fun it s log hs => externalIter_ok g p hp draw it s log hs)
+    (stOK_init g hg)
 
 /-- well-formedness only looks at what `SolveOut.Same` preserves -/
 theorem wellformed_of_same (g : Game ℝ) (T : Nat) (a b : SolveOut ℝ) (h : a.Same b)
     (hb : b.WellFormed g T) : a.WellFormed g T := by
-  sorry
+  obtain ⟨h1, h2, h3, h4, h5, -⟩ := h
+  exact ⟨h3 ▸ hb.stratOne, h4 ▸ hb.stratTwo, by rw [h1, h5]; exact hb.boundOne,
+    by rw [h2, h5]; exact hb.boundTwo, h5 ▸ hb.budget, fun h0 => hb.ran (h5 ▸ h0)⟩
 
 /-! ## `Game::solve` -/
 
@@ -88,13 +122,46 @@ theorem solve_error_iff (env : Env) (sched : Sched ℝ) (g : Game ℝ) (m : Meth
       env.threads n ≠ 1 ∧
       ((e = .threadOverflow ∧ env.usizeMax < 3 * env.threads n) ∨
        (e = .threadSpawn ∧ 3 * env.threads n ≤ env.usizeMax ∧ env.spawnOk (env.threads n) = false)) := by
-  sorry
+  simp only [gameSolve]
+  by_cases h1 : env.threads n = 1
+  · rw [if_pos h1]
+    cases m <;> simp [h1]
+  · rw [if_neg h1]
+    by_cases h2 : env.usizeMax < 3 * env.threads n
+    · rw [if_pos h2]
+      have h2' : ¬ 3 * env.threads n ≤ env.usizeMax := by omega
+      constructor
+      · intro h
+        have : e = .threadOverflow := by cases h; rfl
+        exact ⟨h1, Or.inl ⟨this, h2⟩⟩
+      · rintro ⟨-, ⟨rfl, -⟩ | ⟨-, h3, -⟩⟩
+        · rfl
+        · exact absurd h3 h2'
+    · rw [if_neg h2]
+      have h2' : 3 * env.threads n ≤ env.usizeMax := by omega
+      cases h3 : env.spawnOk (env.threads n)
+      · simp only [Bool.not_false, if_true]
+        constructor
+        · intro h
+          have : e = .threadSpawn := by cases h; rfl
+          exact ⟨h1, Or.inr ⟨this, h2', trivial⟩⟩
+        · rintro ⟨-, ⟨-, h4⟩ | ⟨rfl, -, -⟩⟩
+          · exact absurd h4 h2
+          · rfl
+      · simp only [Bool.not_true, Bool.false_eq_true, if_false]
+        constructor
+        · intro h; cases m <;> cases h
+        · rintro ⟨-, ⟨-, h4⟩ | ⟨-, -, h5⟩⟩
+          · exact absurd h4 h2
+          · cases h5
 
 /-- one thread never errors -/
 theorem one_thread_never_errors (env : Env) (sched : Sched ℝ) (g : Game ℝ) (m : Method) (T : Nat)
     (thr : Option (Ext ℝ)) (params : Option (RegretParams ℝ)) (draw : DrawFn ℝ) :
     ∃ out, gameSolve env sched g m T thr 1 params draw = .ok out := by
-  sorry
+  have h1 : env.threads 1 = 1 := by simp [Env.threads]
+  simp only [gameSolve, h1, if_true]
+  cases m <;> exact ⟨_, rfl⟩
 
 /-! ## no infoset twice on a path -/
 
@@ -109,9 +176,118 @@ def NoRepeatL : List (Bool × Nat) → List (Node ℝ) → Prop
   | seen, k :: ks => NoRepeat seen k ∧ NoRepeatL seen ks
 end
 
+mutual
+theorem noRepeat_of_PR (h1 h2 : ℕ → Hist) :
+    ∀ (n : Node ℝ) (seen : List (Bool × ℕ)) (H1 H2 : Hist), PR true h1 H1 n → PR false h2 H2 n →
+      SeenOK h1 h2 seen H1.length H2.length → NoRepeat seen n
+  | .term _, _, _, _, _, _, _ => by simp only [NoRepeat]
+  | .chance _ ks, seen, H1, H2, p1, p2, hs => by
+    simp only [PR] at p1 p2
+    simp only [NoRepeat]
+    exact noRepeatL_of_PRL h1 h2 ks seen H1 H2 p1 p2 hs
+  | .player true i ks, seen, H1, H2, p1, p2, hs => by
+    simp only [PR, if_true, Bool.true_eq_false, if_false] at p1 p2
+    simp only [NoRepeat]
+    have hi : (h1 i).length = H1.length := by rw [p1.1]
+    exact ⟨hs.not_mem_true i hi,
+      noRepeatL_of_PRD_true h1 h2 ks _ H1 H2 i 0 p1.2 p2 (hs.cons_true i hi)⟩
+  | .player false i ks, seen, H1, H2, p1, p2, hs => by
+    simp only [PR, if_true, Bool.false_eq_true, if_false] at p1 p2
+    simp only [NoRepeat]
+    have hi : (h2 i).length = H2.length := by rw [p2.1]
+    exact ⟨hs.not_mem_false i hi,
+      noRepeatL_of_PRD_false h1 h2 ks _ H1 H2 i 0 p1 p2.2 (hs.cons_false i hi)⟩
+theorem noRepeatL_of_PRL (h1 h2 : ℕ → Hist) :
+    ∀ (ks : List (Node ℝ)) (seen : List (Bool × ℕ)) (H1 H2 : Hist), PRL true h1 H1 ks →
+      PRL false h2 H2 ks → SeenOK h1 h2 seen H1.length H2.length → NoRepeatL seen ks
+  | [], _, _, _, _, _, _ => by simp only [NoRepeatL]
+  | k :: ks, seen, H1, H2, p1, p2, hs => by
+    simp only [PRL] at p1 p2
+    simp only [NoRepeatL]
+    exact ⟨noRepeat_of_PR h1 h2 k seen H1 H2 p1.1 p2.1 hs,
+      noRepeatL_of_PRL h1 h2 ks seen H1 H2 p1.2 p2.2 hs⟩
+theorem noRepeatL_of_PRD_true (h1 h2 : ℕ → Hist) :
+    ∀ (ks : List (Node ℝ)) (seen : List (Bool × ℕ)) (H1 H2 : Hist) (i a : ℕ),
+      PRD true h1 H1 i a ks → PRL false h2 H2 ks →
+      SeenOK h1 h2 seen (H1.length + 1) H2.length → NoRepeatL seen ks
+  | [], _, _, _, _, _, _, _, _ => by simp only [NoRepeatL]
+  | k :: ks, seen, H1, H2, i, a, p1, p2, hs => by
+    simp only [PRD] at p1
+    simp only [PRL] at p2
+    simp only [NoRepeatL]
+    refine ⟨noRepeat_of_PR h1 h2 k seen (H1 ++ [(i, a)]) H2 p1.1 p2.1 (by simpa using hs),
+      noRepeatL_of_PRD_true h1 h2 ks seen H1 H2 i (a + 1) p1.2 p2.2 hs⟩
+theorem noRepeatL_of_PRD_false (h1 h2 : ℕ → Hist) :
+    ∀ (ks : List (Node ℝ)) (seen : List (Bool × ℕ)) (H1 H2 : Hist) (i a : ℕ),
+      PRL true h1 H1 ks → PRD false h2 H2 i a ks →
+      SeenOK h1 h2 seen H1.length (H2.length + 1) → NoRepeatL seen ks
+  | [], _, _, _, _, _, _, _, _ => by simp only [NoRepeatL]
+  | k :: ks, seen, H1, H2, i, a, p1, p2, hs => by
+    simp only [PRD] at p2
+    simp only [PRL] at p1
+    simp only [NoRepeatL]
+    refine ⟨noRepeat_of_PR h1 h2 k seen H1 (H2 ++ [(i, a)]) p1.1 p2.1 (by simpa using hs),
+      noRepeatL_of_PRD_false h1 h2 ks seen H1 H2 i (a + 1) p1.2 p2.2 hs⟩
+end
+
 /-- perfect recall excludes a repeated infoset on a path, so the mutable borrow of an infoset
 held across the recursion of `recurse_single` is never taken twice -/
 theorem wf_no_infoset_twice_on_path (g : Game ℝ) (hg : GameWF g) : NoRepeat [] g.root := by
-  sorry
+  obtain ⟨h1, p1, -⟩ := hg.recall true
+  obtain ⟨h2, p2, -⟩ := hg.recall false
+  exact noRepeat_of_PR h1 h2 g.root [] [] [] p1 p2 (SeenOK.nil h1 h2 _ _)
+
+/-! ## non-vacuity: the hypotheses are satisfiable, the conclusions are not trivially true -/
+
+example : BoundOK (.fin 0) 1 ∧ BoundOK (.fin (1 / 2)) 3 ∧ BoundOK .posInf 0 ∧
+    ¬ BoundOK .posInf 1 ∧ ¬ BoundOK (.fin 0) 0 ∧ ¬ BoundOK (.fin (-1)) 1 ∧ ¬ BoundOK .negInf 0 := by
+  simp [BoundOK]
+
+example : (⟨.fin 1, .negInf, 3 / 2, .fin (-1)⟩ : RegretParams ℝ).OK ∧
+    ¬ (⟨.fin 1, .negInf, -1, .fin (-1)⟩ : RegretParams ℝ).OK := by
+  simp only [RegretParams.OK]; norm_num
+
+/-- a coin flip, then matching pennies (player two does not see player one's move) or a draw -/
+noncomputable def C05.tinyGame : Game ℝ :=
+  ⟨[[1 / 2, 1 / 2]], [⟨0, [0, 1], none⟩], [⟨0, [0, 1], none⟩], [], [],
+    .chance 0 [.player true 0 [.player false 0 [.term 1, .term (-1)],
+                               .player false 0 [.term (-1), .term 1]], .term 0]⟩
+
+theorem C05.tinyGame_wf : GameWF C05.tinyGame where
+  chancePos := by
+    intro ps hps
+    simp only [C05.tinyGame, List.mem_singleton] at hps
+    subst hps
+    constructor
+    · intro p hp
+      simp only [List.mem_cons, List.not_mem_nil, or_false, or_self] at hp
+      subst hp; norm_num
+    · norm_num
+  nodes := by simp [C05.tinyGame, NodeOK, NodeOKL, Game.infos]
+  recall := by
+    intro me
+    refine ⟨fun _ => [], ?_, by simp⟩
+    cases me <;> simp [C05.tinyGame, PR, PRL, PRD]
+  tables1 := ⟨by simp [C05.tinyGame], by simp [C05.tinyGame], by simp [C05.tinyGame],
+    by simp [C05.tinyGame]⟩
+  tables2 := ⟨by simp [C05.tinyGame], by simp [C05.tinyGame], by simp [C05.tinyGame],
+    by simp [C05.tinyGame]⟩
+  actsTwo := by
+    intro me e he
+    cases me <;> simp only [C05.tinyGame, Game.infos, if_true, Bool.false_eq_true, if_false,
+      List.mem_singleton] at he <;> subst he <;> simp
+
+/-- the theorems apply to a concrete game, every preset, any oracle, budget and threshold -/
+example (draw : DrawFn ℝ) (T : ℕ) (thr : Option (Ext ℝ)) :
+    (solveVanillaSingle C05.tinyGame true RegretParams.dcfr draw T thr).WellFormed C05.tinyGame T ∧
+    (solveExternalSingle C05.tinyGame RegretParams.cfrPlus draw T thr).WellFormed C05.tinyGame T ∧
+    NoRepeat [] C05.tinyGame.root :=
+  ⟨vanilla_single_wellformed _ C05.tinyGame_wf _ _ presets_ok.2.2.2.1 _ _ _,
+    external_single_wellformed _ C05.tinyGame_wf _ presets_ok.2.2.1 _ _ _,
+    wf_no_infoset_twice_on_path _ C05.tinyGame_wf⟩
+
+/-- `NoRepeat` is not trivially true: a path through the same infoset twice violates it -/
+example : ¬ NoRepeat [] (.player true 0 [.player true 0 [.term 0, .term 0], .term (0 : ℝ)]) := by
+  simp [NoRepeat, NoRepeatL]
 
 end Cfr
